@@ -411,13 +411,40 @@ C04_status(o, ln, o2) ==
    /\ (ln.cb = 0 /\ ln.k \in {"tick", "req", "probe", "end"} /\ Quiet(o2))
          => \A i \in WIdx(o2) : o2.w[i].st \in {"stopped", "active"}
 
+\* Completion bound of the operation holding the slot, from the statement: "the sum of the applicable
+\* graceful_timeout and warmup delays plus a small constant" (ms).  Watchers the operation applies to:
+OpWs(g, o) == { i \in WIdx(o) : ~g.op.hasname \/ g.op.pattern \/ o.w[i].ln = g.op.lname }
+NPof(wr) == Max2(wr.np, Len(wr.pr))
+SumOver(o, S, f(_)) == LET RECURSIVE Sm(_)
+                          Sm(T) == IF T = {} THEN 0 ELSE LET i == CHOOSE i \in T : TRUE IN f(o.w[i]) + Sm(T \ {i})
+                      IN Sm(S)
+MaxG(o, S) == LET RECURSIVE Mx(_)
+                  Mx(T) == IF T = {} THEN 0 ELSE LET i == CHOOSE i \in T : TRUE IN Max2(o.w[i].G + 100, Mx(T \ {i}))
+              IN Mx(S)
+StopB(wr) == wr.G + 100                                  \* all workers are killed concurrently: one grace period
+StartB(wr) == (NPof(wr) + 1) * wr.W + wr.G + 100          \* (+ a stop if a hook aborts the start)
+SmallC == 400
+OpBound(g, o) ==
+  LET ws == OpWs(g, o) sl == g.op.slot IN
+  CASE sl \in {"watcher_stop", "arbiter_rm_watcher"} -> SumOver(o, ws, StopB) + SmallC
+    [] sl \in {"arbiter_stop_watchers", "arbiter_stop"} -> MaxG(o, ws) + SmallC
+    [] sl \in {"watcher_start", "arbiter_start_watchers"} ->
+         SumOver(o, ws, StartB) + Cardinality(ws) * g.cfg.wg + SmallC
+    [] sl \in {"watcher_restart", "arbiter_restart"} ->
+         MaxG(o, ws) + SumOver(o, ws, StartB) + Cardinality(ws) * g.cfg.wg + SmallC
+    [] sl \in {"watcher_incr", "watcher_decr", "watcher_do_action", "watcher_set_opt", "manage_watchers"} ->
+         SumOver(o, ws, LAMBDA wr : (NPof(wr) + 1) * wr.W + 2 * (wr.G + 100)) + SmallC
+    [] sl \in {"watcher_reload", "arbiter_reload"} ->
+         SumOver(o, ws, LAMBDA wr : (NPof(wr) + 1) * (wr.G + 100 + wr.W) + StartB(wr)) + SmallC
+    [] OTHER -> Bound(g, o)
+
 \* ---------------- C05
 C05_noblock(ln) == ln.k # "block"
 C05_readnow(g, ln) == ~(g.roPending # "" /\ ln.cb = 0)
 OpenWaiting(g) == { i \in 1..Len(g.reqs) : g.reqs[i].waiting /\ g.reqs[i].n = 0 /\ ~g.reqs[i].cast /\ ~g.reqs[i].raw }
 C05_bound(g, o, ln) ==
    (ln.k = "tick" /\ ~g.blocked) =>
-      /\ (o.slot # "" => g.t - g.op.t0 <= Bound(g, o))
+      /\ (o.slot # "" => g.t - g.op.t0 <= OpBound(g, o))
       /\ \A i \in OpenWaiting(g) : g.t - g.reqs[i].t0 <= Bound(g, o)
 
 \* ---------------- C06 (daemon half, on the recorded frames)
